@@ -419,6 +419,15 @@ pub fn seed_corpus() -> Vec<String> {
     v.push("RULE :R :- CONSTRUCT { ?x :r ?z . } WHERE { ?x :r ?y . ?y :r ?z . } INSERT DATA { <http://e/a> <http://e/p> <http://e/b> . }".into());
     v.push("RULE :R :- CONSTRUCT { ?x :r ?z . } WHERE { ?x :r ?y . } SELECT ?s WHERE { ?s <http://e/p> ?o }".into());
     v.push("# comment first\nDELETE WHERE { ?s <http://e/p> ?o }".into());
+    // numeric tokens at and beyond the magnitudes the implementation's integer / float types hold:
+    // usize::MAX and usize::MAX + 1 as LIMIT (top level and in a sub-select of an update's WHERE), a
+    // 40-digit LIMIT, and out-of-range numbers as FILTER operands and in an arithmetic expression
+    v.push("SELECT ?s WHERE { ?s <http://e/p> ?o } LIMIT 18446744073709551615".into());
+    v.push("SELECT ?s WHERE { ?s <http://e/p> ?o } LIMIT 18446744073709551616".into());
+    v.push("SELECT ?s WHERE { ?s <http://e/p> ?o } ORDER BY ?s LIMIT 9999999999999999999999999999999999999999".into());
+    v.push("INSERT { ?s <http://e/q> ?o } WHERE { { SELECT ?s ?o WHERE { ?s <http://e/p> ?o } LIMIT 18446744073709551616 } }".into());
+    v.push("SELECT ?s WHERE { ?s <http://e/q> ?v . FILTER(?v < 99999999999999999999999999) }".into());
+    v.push("SELECT ?s WHERE { ?s <http://e/q> ?v . FILTER(?v * 1e400 > -340282366920938463463374607431768211457) }".into());
     v
 }
 
